@@ -145,7 +145,7 @@ func writeEvidence(verif, prop, tier string, e *Engine, jobs []*funcJob, obls []
 		"seed":        seedFromEnv(),
 		"level":       "proof",
 		"coverage":    cov,
-		"assumptions": assumedL,
+		"assumptions": nonNil(assumedL),
 		"wall_s":      round3(wall),
 		"violations":  violations,
 	}
@@ -350,4 +350,11 @@ func modelInt(m map[string]string, name string) (int64, bool) {
 	}
 	n, ok := isSmallConst(strings.TrimSpace(v))
 	return n, ok
+}
+
+func nonNil(l []string) []string {
+	if l == nil {
+		return []string{}
+	}
+	return l
 }
